@@ -242,4 +242,14 @@ for (const sname of Object.keys(spec.structs)) {
   } catch (e) { out.errors.push(sname + " args: " + e); }
   out.structs[sname] = res;
 }
+// ---- receive buffers of fallible / optional returns -------------------------------------------------
+out.result_returns = {};
+for (const [jsname, symbol] of (spec.result_methods || [])) {
+  const O = mods[spec.opaque];
+  const fn = Object.getOwnPropertyNames(O).find(n => n.toLowerCase().replace(/_/g, "") === jsname.toLowerCase().replace(/_/g, ""));
+  allocs.length = 0; allocLog.length = 0;
+  new Uint8Array(MEM).fill(0, 1024, 4096);
+  try { O[fn](); } catch (e) { /* decoding the stub's all-zero result may throw; the allocation is already recorded */ }
+  out.result_returns[jsname] = allocs.slice();
+}
 console.log(JSON.stringify(out));
